@@ -63,6 +63,10 @@ fn parse_part(s: &str) -> Option<Vec<u8>> {
     } else if let Some(rest) = s.strip_prefix('x') {
         let (l, sd) = parse_two(rest)?;
         Some(lcg_data(l, sd))
+    } else if let Some(rest) = s.strip_prefix('n') {
+        // non-zero bytes
+        let (l, sd) = parse_two(rest)?;
+        Some(lcg_data(l, sd).into_iter().map(|b| 1 + b % 255).collect())
     } else if let Some(rest) = s.strip_prefix('z') {
         let l: usize = rest.parse().ok()?;
         Some(vec![0; l])
